@@ -2290,7 +2290,6 @@ def convert_mean_to_depthwise_conv(op, arch, nng):
         max_height = 64
         inp, axis = op.inputs
         dims = len(inp.shape)
-        dims_ofm = len(op.ofm.shape)
         ofmq = op.ofm.quantization
         ifmq = op.ifm.quantization
 
@@ -2301,19 +2300,14 @@ def convert_mean_to_depthwise_conv(op, arch, nng):
             reduce_axis = [True if i in axis.values else False for i in range(dims)]
 
         ifm_shape = inp.shape.copy()
-        intermediate_shape = op.ofm.shape.copy()
-
-        # Fix intermediate_shape when keep_dims is false
-        # e.g. IFM=1xHxWxC axis=2 OFM=1xHxC, the intermediate_shape should be 1xHx1xC
-        if dims_ofm < dims:
-            for i in range(dims):
-                if reduce_axis[i]:
-                    intermediate_shape.insert(i, 1)
 
         # Reshape to 4D
         reduce_axis = full_shape(4, reduce_axis, False)
         ifm_shape = full_shape(4, ifm_shape, 1)
-        intermediate_shape = full_shape(4, intermediate_shape, 1)
+        # The intermediate shape is the IFM shape with the reduced axes set to 1, also when keep_dims is false
+        # e.g. IFM=1xHxWxC axis=2 OFM=1xHxC, the intermediate_shape should be 1xHx1xC
+        # (not taken from the OFM tensor, which has another shape behind a bypassed reshape)
+        intermediate_shape = [1 if reduce else dim for reduce, dim in zip(reduce_axis, ifm_shape)]
 
         # If all dimensions to reduce have shape 1, the operation is essentially a memcpy.
         # We can then remove the whole op by propagating ofm to previous ops
